@@ -424,13 +424,10 @@ func c08run(env *core.Env, idx int) core.CaseResult {
 		// by contract LstatOrStat describes the link itself only where Lstat is offered; without it, it follows the link
 		// (different data, or ErrNotExist when the link dangles). Compared only when the masked run did call Lstat.
 		// (The link is there for the fault enumeration below: a failing Lstat must not be papered over by Stat.)
-		calledLstat := false
-		for _, c := range mcalls {
-			if strings.Contains(c, "Lstat") {
-				calledLstat = true
-			}
-		}
-		if !calledLstat {
+		// (decided from what the masked file system offers, not from what the helper happened to call: a helper that
+		// could reach Lstat - directly or through Mount - and calls Stat instead is exactly the defect)
+		exposed := c08native(cs.Base) &^ cs.Off
+		if exposed&(capfs.FSBit("Lstat")|capfs.FSBit("Mount")) == 0 {
 			same = true
 		}
 	}
